@@ -133,3 +133,58 @@ func verifHarness_f02_fail() {
 	verifCover(err != nil, 1)
 	verifCover(err == nil, 2)
 }
+
+// C20: FlowM1 (modifier-mode subset), every task may fail or panic
+func verifHarness_fm1() {
+	ctx := verifNdCtx(false)
+	a := A(verifNdInt(1))
+	verifAllow("T4", 7)
+	verifAllow("T5", 5)
+	verifAllow("T6", 5)
+	verifAllow("T7", 7)
+	var b B
+	var c C
+	var wantD D
+	var e E
+	var wantF F
+	var e4, e7 error
+	failed := false
+	verifRefBegin()
+	p4, _ := verifTry(func() { b, c, e4 = T4(a) })
+	if p4 || e4 != nil {
+		failed = true
+	} else {
+		p5, _ := verifTry(func() { wantD = T5(b) })
+		p6, _ := verifTry(func() { e = T6(c) })
+		if p5 || p6 {
+			failed = true
+		} else {
+			p7, _ := verifTry(func() { wantF, e7 = T7(wantD, e) })
+			if p7 || e7 != nil {
+				failed = true
+			}
+			if !p7 && e7 != nil {
+				verifCover(true, 3)
+			}
+		}
+	}
+	verifRefEnd()
+	f, d := F(verifNdInt(2)), D(verifNdInt(3))
+	f0, d0 := f, d
+	err := FlowM1(ctx, a, &f, &d)
+	verifAssert((err == nil) == !failed, 1)
+	if !failed {
+		verifAssert(f == wantF && d == wantD, 2)
+		verifAssert(verifCallCount("T4") == 1 && verifCallCount("T5") == 1 && verifCallCount("T6") == 1 && verifCallCount("T7") == 1, 3)
+		verifAssert(D(verifCallArg("T7", 0, 0)) == wantD && E(verifCallArg("T7", 0, 1)) == e, 4)
+	} else {
+		verifAssert(f == f0 && d == d0, 5)
+		if !p4 && e4 != nil {
+			verifAssert(err == e4, 6)
+			verifAssert(verifCallCount("T5") == 0 && verifCallCount("T6") == 0 && verifCallCount("T7") == 0, 7)
+		}
+	}
+	verifAssert(verifSchedConcurrency() == 2, 8)
+	verifCover(!failed, 1)
+	verifCover(p4, 2)
+}
